@@ -23,12 +23,12 @@ UPD = ["upd.args", "upd.constrained", "upd.kept", "upd.weight", "upd.discard", "
 ALLP = ["D0", "SOne", "SChain", "SIndep", "SNest", "SLit", "S2", "VmD", "VmS", "VmAx", "VmAx2", "VmMask", "Rep", "Rep3",
         "Sc1", "Sc2", "Sc3", "ScSw", "SwXY", "SwSame", "Sw3", "SSw", "SVm", "Msk", "MskD", "Dm", "Dm2", "DmMap", "DmCon",
         "DmSc", "OrE", "MixE", "Acc", "Red", "It", "ItF", "MIt", "MItF", "MItF1"]
-FAST = ["VmAx1", "STup3", "SNest2", "D0", "SOne", "SChain", "SIndep", "SNest", "SLit", "S2", "SDm", "MskSw", "VmSw", "SwN", "VmD", "VmS", "VmAx", "VmAx2", "VmMask", "Rep", "Rep3",
+FAST = ["VmAx1", "STup3", "SNest2", "DmX", "DmDm", "D0", "SOne", "SChain", "SIndep", "SNest", "SLit", "S2", "SDm", "MskSw", "VmSw", "SwN", "VmD", "VmS", "VmAx", "VmAx2", "VmMask", "Rep", "Rep3",
         "SwXY", "SwSame", "Sw3", "SSw", "SVm", "Msk", "MskD", "Dm", "Dm2", "DmMap", "DmCon", "OrE", "MixE"]
 SLOW = ["Sc1", "Sc2", "Sc3", "ScSw", "DmSc", "Acc", "Red", "It", "ItF"]    # masked-iterate programs belong to C16 only
-EAGER = ["STup3", "SNest2", "CloPK", "CloPK2", "Clo1", "Clo2", "Clo0", "CloP", "CloK", "D0", "SOne", "SChain", "SIndep", "SNest", "SLit", "S2", "SDup", "Dm", "Dm2", "DmMap", "DmCon", "Msk", "MskD"]
+EAGER = ["STup3", "SNest2", "DmX", "DmDm", "CloPK", "CloPK2", "Clo1", "Clo2", "Clo0", "CloP", "CloK", "D0", "SOne", "SChain", "SIndep", "SNest", "SLit", "S2", "SDup", "Dm", "Dm2", "DmMap", "DmCon", "Msk", "MskD"]
 EAGER_ND = [x for x in EAGER if x != "SDup"]
-REGEN = ["STup3", "SNest2", "D0", "SOne", "SChain", "SIndep", "SNest", "S2", "SDm", "Dm", "Dm2", "DmMap", "DmCon"]
+REGEN = ["STup3", "SNest2", "DmX", "DmDm", "D0", "SOne", "SChain", "SIndep", "SNest", "S2", "SDm", "Dm", "Dm2", "DmMap", "DmCon"]
 REGEN_SLOW = ["Sc1", "Sc2", "DmSc", "It"]
 PROJ = ["D0", "SOne", "SChain", "SIndep", "SNest", "S2", "VmD", "VmS", "VmAx", "Rep", "SwXY", "SwSame", "Sw3", "SSw", "SVm",
         "Dm", "Dm2", "OrE", "MixE"]
@@ -82,7 +82,7 @@ PROFILES = {
     "C14": dict(own=CORE,
                 gens=[dict(ids=["Msk", "MskD", "VmMask", "MskSw"], first=["simulate", "generate"], edits=["update", "updateargs", "updateargs", "updatemask"], depth=3, n=(128, 2400))]),
     "C15": dict(own=CORE + ["nochange"],
-                gens=[dict(ids=["Dm", "Dm2", "DmMap", "DmCon", "SDm"], first=["simulate", "generate"], edits=["update", "updateargs", "updateargs", "regenerate", "project"], depth=3, n=(128, 2400)),
+                gens=[dict(ids=["Dm", "Dm2", "DmMap", "DmCon", "SDm", "DmX", "DmX", "DmDm", "DmDm"], first=["simulate", "generate"], edits=["update", "updateargs", "updateargs", "regenerate", "project"], depth=3, n=(128, 2400)),
                       dict(ids=["DmSc"], first=["simulate"], edits=["update", "updateargs"], depth=2, n=(16, 200))]),
     "C16": dict(own=CORE,
                 gens=[dict(ids=["MIt", "MItF", "MItF1"], first=["simulate", "generate"], edits=["update", "updateargs"], depth=1, n=(64, 600))]),
@@ -95,7 +95,7 @@ PROFILES = {
                 gens=[dict(ids=["Clo1", "Clo2", "Clo0", "CloP", "CloK", "CloPK", "CloPK2", "CloSw", "CloVm"], first=["simulate", "generate"],
                            edits=["update", "update", "updateargs", "regenerate", "project", "assess"], depth=3, n=(120, 1500))]),
     "C34": dict(own=["subtrace.choices", "subtrace.score", "run"],
-                gens=[dict(ids=["SOne", "SChain", "SIndep", "SNest", "S2", "VmS", "VmAx", "Rep", "Msk", "Dm", "Dm2"], first=["simulate", "generate"], edits=["subtrace", "subtrace", "update"], depth=3, n=(128, 2000)),
+                gens=[dict(ids=["SOne", "SChain", "SIndep", "SNest", "S2", "VmS", "VmAx", "Rep", "Msk", "Dm", "Dm2", "SwXY", "SwSame", "Sw3", "STup3"], first=["simulate", "generate"], edits=["subtrace", "subtrace", "update", "updateargs"], depth=3, n=(128, 2000)),
                       dict(ids=["Sc1", "Sc2", "Sc3"], first=["simulate"], edits=["subtrace"], depth=2, n=(24, 300))]),
     "C35": dict(own=["mask.equiv", "mask.run", "gen.agree", "gen.weight", "upd.constrained", "upd.kept", "upd.weight", "run"],
                 gens=[dict(ids=[x for x in FAST if x not in ("SwXY", "Sw3", "SSw", "OrE", "MixE")], first=["generatemask"], edits=["updatemask", "updatemask", "update"], depth=2, n=(128, 2400)),
